@@ -139,11 +139,9 @@ def make_traversal(kind):
                 % (ND % "m", SPELL % ("m", "m"), P % "m", P % "m"),
                 "assert_(forall('k', implies(g_done[k], not pre(node.path, k)), g_done[k]))",
                 "g_done = store(g_done, node.path, True)", "g_S0 = stack"],
-            HDR: pushed,
         },
         "ghost_before": {
             YIELD: ["g_yat = store(g_yat, node.path, len(g_yielded))"] + (["g_keys = store(g_keys, len(g_yielded), node.path)"] if kind == "values" else []),
-            HDR: cover,
         },
         "asserts": {
             "continue": [
@@ -153,8 +151,12 @@ def make_traversal(kind):
             ],
         },
     }
-    if pairs:
-        c["loops"][2] = {"index": "g_c", "invariant": [
+    if not pairs:
+        c["ghost_before"][HDR] = cover
+        c["ghost_after"][HDR] = pushed
+    else:
+        # hooks of the inner loop are attached by ordinal (an edit of its header text leaves the script attached)
+        c["loops"][2] = {"index": "g_c", "before": cover, "after": pushed, "invariant": [
             "len(stack) == len(g_S0) + g_c",
             "forall('m', implies(0 <= m and m < len(g_S0), stack[m] == g_S0[m]), stack[m])",
             "forall('m', implies(len(g_S0) <= m and m < len(stack), stack[m][0] == %s[m - len(g_S0)][1]"
